@@ -28,7 +28,10 @@ NONDET_MODULES = {"random", "secrets", "time", "os", "datetime", "uuid", "socket
                   "weakref", "gc", "inspect", "ctypes", "signal", "asyncio", "logging", "shutil", "glob", "platform",
                   "getpass", "urllib", "http", "requests"}
 ALLOWED_IMPORT_ROOTS = {"hashlib", "hmac", "math", "typing", "abc", "functools", "importlib", "sys", "types",
-                        "eth_typing", "eth_utils", "_hashlib", "py_ecc", "__future__", "typing_extensions"}
+                        "eth_typing", "eth_utils", "_hashlib", "py_ecc", "__future__", "typing_extensions",
+                        "collections", "itertools", "operator", "numbers", "enum", "dataclasses"}
+# from threading only the mutual-exclusion primitives (no effect on values)
+ALLOWED_FROM = {"threading": {"Lock", "RLock"}}
 NONDET_CALLS = {"id", "hash", "input", "open", "print", "exec", "eval", "compile", "__import__", "vars", "locals",
                 "setattr", "delattr", "breakpoint", "object.__setattr__"}
 MEMO_DECOS = {"lru_cache", "cache", "cached_property", "functools.lru_cache", "functools.cache",
@@ -36,6 +39,18 @@ MEMO_DECOS = {"lru_cache", "cache", "cached_property", "functools.lru_cache", "f
 
 FRESH, PARAM, MODULE, CLASS, SELF_INIT, SELF, UNKNOWN, IMMUT, FRESHPART = (
     "fresh", "param", "module", "class", "self-in-init", "self", "unknown", "immutable", "part-of-fresh")
+
+
+MEMO_DECORATORS = ("lru_cache", "cache")
+
+
+def is_memoised(f):
+    """decorated with functools.lru_cache / functools.cache"""
+    for d in f.node.decorator_list:
+        dn = ast.unparse(d).split("(")[0].split(".")[-1]
+        if dn in MEMO_DECORATORS:
+            return True
+    return False
 
 
 class Site:
@@ -88,7 +103,9 @@ class FuncEffects:
             elif isinstance(node, (ast.For, ast.comprehension)):
                 self._bind_target(node.target, ("elem", node.iter))
             elif isinstance(node, ast.With):
-                raise AnalysisError(f"{f.where}: with-statement outside the fragment")
+                for item in node.items:
+                    if item.optional_vars is not None:
+                        self._bind_target(item.optional_vars, ("expr", item.context_expr))
             elif isinstance(node, ast.NamedExpr):
                 self._bind_target(node.target, ("expr", node.value))
             elif isinstance(node, ast.ExceptHandler) and node.name:
@@ -297,6 +314,9 @@ class Effects:
                             outs.add(("param", self._params_in(n.value, fe)))
                         else:
                             outs.add(o)
+            if is_memoised(callee):
+                # one object per distinct argument tuple, shared by every caller: fresh results become shared state
+                outs = {MODULE if o in (FRESH, FRESHPART) else o for o in outs}
             self._ret_cache[key] = tuple(outs)
         outs = self._ret_cache[key]
         if outs == ("pending",):
@@ -416,3 +436,31 @@ class Effects:
             yield from Effects._flatten(t.value)
         else:
             yield t
+
+
+def constructor_helpers(E):
+    """private methods whose every call in the package is `self.<name>(…)` from a constructor (or from another such
+    helper): they initialise the object under construction, like __init__ itself"""
+    ctor_helpers = set()
+    grew = True
+    while grew:
+        grew = False
+        sites_of = {}
+        for caller, call, callee in E.calls:
+            sites_of.setdefault(callee.qualname, []).append((caller, call))
+        for q, sites in sites_of.items():
+            fe = E.funcs.get(q)
+            if fe is None or q in ctor_helpers or fe.f.cls is None or not fe.f.node.name.startswith("_") \
+                    or fe.f.node.name.startswith("__") or fe.f.kind in ("staticmethod", "classmethod"):
+                continue
+            ok_all = True
+            for caller, call in sites:
+                cname = caller.f.node.name
+                recv_ok = (isinstance(call.func, ast.Attribute) and isinstance(call.func.value, ast.Name) and caller.params
+                           and call.func.value.id == caller.params[0])
+                if not (recv_ok and (cname == "__init__" or caller.f.qualname in ctor_helpers)):
+                    ok_all = False
+            if ok_all:
+                ctor_helpers.add(q)
+                grew = True
+    return ctor_helpers
